@@ -856,6 +856,9 @@ func shards() int {
 	if s, err := strconv.Atoi(os.Getenv("C06_SHARDS")); err == nil && s > 0 {
 		return s
 	}
+	if ev.Thorough() {
+		return 8
+	}
 	return 4
 }
 
